@@ -49,23 +49,24 @@ def realise(seq, sep=" "):
     return sep.join(out), vals
 
 
-def spec_value(t, vals):
+def spec_value(t, vals, env=None):
+    env = env if env is not None else ENV
     tag = t[0]
     if tag == "c":
         return vals[t[1]] * t[2]
     if tag == "v":
-        return ENV[vals[t[1]]]
+        return env[vals[t[1]]]
     if tag == "neg":
-        return -spec_value(t[1], vals)
+        return -spec_value(t[1], vals, env)
     if tag == "fact":
-        a = spec_value(t[1], vals)
+        a = spec_value(t[1], vals, env)
         if a.denominator != 1 or a < 0 or a > 50:
             raise Undefined("fact")
         return Fraction(math.factorial(int(a)))
     if tag == "fn":
-        a = spec_value(t[1], vals)
+        a = spec_value(t[1], vals, env)
         return Fraction((a > 0) - (a < 0))
-    a, b = spec_value(t[1], vals), spec_value(t[2], vals)
+    a, b = spec_value(t[1], vals, env), spec_value(t[2], vals, env)
     if tag == "+":
         return a + b
     if tag == "-":
